@@ -96,6 +96,10 @@ class Piece:
             ks = 'abs%s' % arg
         elif n == 'ramp':
             ks = '%s*u%s' % (arg, arg)
+        elif n == 'rampfn':
+            ks = 'ramp%s' % arg                      # the function spelling: goes through expand_functions
+        elif n == 'tsgn':
+            ks = '%s*sign%s' % (arg, arg)            # alternative spelling of |x| (its own table branch)
         elif n in ('rect', 'tri'):
             ks = '%s%s' % (n, arg)
         elif n == 'sinc':
@@ -132,6 +136,10 @@ class Piece:
         """Lean terms (c.re c.im ph th kind a b)"""
         kinds = [(self.kind, self.a, self.b, (Fraction(1), Fraction(0)))]
         kd = self.kind.split(':')
+        if kd[0] == 'rampfn':
+            kinds = [('ramp', self.a, self.b, (Fraction(1), Fraction(0)))]
+        if kd[0] == 'tsgn':
+            kinds = [('abs', self.a, self.b, (Fraction(1), Fraction(0)))]
         if kd[0] == 'expabs':
             kinds = [('expu:0:%s:0' % kd[1], self.a, self.b, (Fraction(1), Fraction(0))),
                      ('expu:0:%s:0' % kd[1], -self.a, -self.b, (Fraction(1), Fraction(0)))]
@@ -316,24 +324,31 @@ class Canon:
                 locs = S.Rational(loc.numerator, loc.denominator)
                 if rest.has(var):
                     rest = S.cancel(S.together(rest))
-                if n != 0 and (rest.has(var) or lam != 0):
-                    raise CanonFail('delta derivative with variable coefficient')
                 if ts:
                     raise CanonFail('delta times transcendental atom')
                 r = S.cancel(S.together(rest)) if rest.has(var) else rest
                 sub = dict(consts)
                 sub[var] = locs
-                v = self.num(r, sub)
                 w = Fraction(1) / (abs(av) * av ** n)
-                v = (v[0] * w, v[1] * w)
                 kappa = S.expand(lam * locs + mu)
                 # at the (fake-pi) location the exponent is a constant: split true-pi phase from the rest
                 ph, mu_v = self.split_exponent(kappa, consts, allow_pi_in_loc=(lam != 0))
                 if mu_v != (0, 0):
                     raise CanonFail('delta with non-phase exponential weight')
-                ph, v = fold_phase(ph, v)
-                if v != (0, 0):
-                    out.append('D %d %s %s %s %s' % (n, fstr(loc), fstr(ph), fstr(v[0]), fstr(v[1])))
+                # g(x) delta^(n)(x - x*) = sum_k (-1)^k C(n,k) g^(k)(x*) delta^(n-k)(x - x*),  g = r(x) e^{lam x + mu}:
+                #   g^(k)(x*) = e^{lam x* + mu} sum_i C(k,i) r^(i)(x*) lam^(k-i)
+                import math
+                variable = n != 0 and (r.has(var) or lam != 0)
+                for k in (range(n + 1) if variable else [0]):
+                    gk = S.Integer(0)
+                    for i in range(k + 1):
+                        gk += math.comb(k, i) * S.diff(r, var, i) * lam ** (k - i)
+                    v = self.num(S.cancel(S.together(gk)) if gk.has(var) else gk, sub)
+                    cf = w * (-1) ** k * math.comb(n, k)
+                    v = (v[0] * cf, v[1] * cf)
+                    ph2, v = fold_phase(ph, v)
+                    if v != (0, 0):
+                        out.append('D %d %s %s %s %s' % (n - k, fstr(loc), fstr(ph2), fstr(v[0]), fstr(v[1])))
                 continue
             sub = dict(consts)
             sub[var] = xs
@@ -863,13 +878,13 @@ def run(chk, replay=None):
 
     # ---- 3a. every table atom, both directions, plain and with scale/shift/modulation (deterministic part)
     atoms = ['one', 'step', 'sgn', 'abs', 'ramp', 'pw:1', 'pw:2', 'inv1', 'inv2', 'rect', 'tri', 'sinc', 'sinc2', 'gauss', 'delta:0',
-             'expu:0:3:0', 'expu:1:2:0', 'expabs:3', 'cpole:1:3:0', 'cpole:2:3:0', 'sincu', 'trap:1/2', 'sincp:1/2']
+             'expu:0:3:0', 'expu:1:2:0', 'expabs:3', 'cpole:1:3:0', 'cpole:2:3:0', 'sincu', 'trap:1/2', 'sincp:1/2', 'rampfn', 'tsgn']
     for k in atoms:
         for direction in ('fwd', 'inv'):
             variants = ((1, 0, 'none', 0), (2, -1, 'none', 0), (-1, 0, 'exp', 2)) if quick else \
                 ((1, 0, 'none', 0), (2, -1, 'none', 0), (-1, 0, 'none', 0), (1, 0, 'exp', 2), (Fraction(1, 2), 1, 'cos', 2), (-2, 1, 'sin', 1))
             for (a, b, mod, th) in variants:
-                if k.split(':')[0] in ('pw', 'one') and (a != 1 or b != 0):
+                if k.split(':')[0] in ('pw', 'one', 'tsgn') and (a != 1 or b != 0):
                     continue
                 if k.startswith('delta') and mod != 'none':
                     continue
@@ -1025,6 +1040,25 @@ def run(chk, replay=None):
                                        'conversion chain %s does not return the original expression' % '->'.join(chain))
                 break
 
+    # ---- 3d''. the conversion METHODS of the four classes agree with the call syntax X(var) (incl. the identity methods)
+    meths = {'f': 'fourier', 'omega': 'angular_fourier', 'F': 'norm_fourier', 'Omega': 'norm_angular_fourier'}
+    for d in DOMS:
+        X = mk(conv_exprs[0].text(d), d)
+        for e in DOMS:
+            try:
+                y1 = limited(lambda: getattr(X, meths[e])()).sympy
+                y2 = limited(lambda: X(LV[e])).sympy
+                same = S.simplify(y1 - y2) == 0
+            except Exception as ex:   # noqa
+                chk.count('conversion-method', 'error:' + type(ex).__name__)
+                continue
+            chk.count('conversion-method', 'method==call' if same else 'differs')
+            if not same:
+                counterexamples[0] += 1
+                chk.counterexample({'kind': 'conversion', 'from': d, 'to': e, 'via': 'method'},
+                                   {'input': {'expression': conv_exprs[0].text(d), 'from': d, 'to': e}, 'lcapy': {'method': str(y1), 'call': str(y2)},
+                                    'spec': 'X.%s() and X(%s) are the same conversion' % (meths[e], e)},
+                                   'conversion method and call syntax disagree')
     tick('conversions')
     # ---- 3e. Laplace -> Fourier route for causal, absolutely integrable signals
     n_lap = 6 if quick else 60
@@ -1068,6 +1102,57 @@ def run(chk, replay=None):
                 break
 
     tick('laplace-route')
+    # ---- 3f. branches outside the modelled class: undefined functions (structural expectations), API entry points, error paths,
+    #          hyperbolic / rational special cases (called and counted only: no specification value)
+    xf, yf, Xf, Yf = S.Function('x'), S.Function('y'), S.Function('X'), S.Function('Y')
+    ts_, fs_ = lt.sympy, lf.sympy
+    tau_ = S.Symbol('tau', real=True)
+    undef_cases = [
+        ('x(t)', 't', 'f', Xf(fs_)), ('3*x(t)', 't', 'f', 3 * Xf(fs_)), ('X(f)', 'f', 't', xf(ts_)),
+        ('Integral(x(tau)*y(t - tau), (tau, -oo, oo))', 't', 'f', Xf(fs_) * Yf(fs_)),
+        ('Integral(x(t - tau)*y(tau), (tau, -oo, oo))', 't', 'f', Xf(fs_) * Yf(fs_)),
+        ('x(t)*exp(j*2*pi*3*t)', 't', 'f', Xf(fs_ - 3))]
+    for (txt, src, dst, want) in undef_cases:
+        try:
+            got = limited(lambda: mk(txt, src)(LV[dst])).sympy
+            okk = S.simplify(got - want) == 0
+            chk.count('undefined-functions', 'as-expected' if okk else 'differs')
+            chk.case(('undef', txt), True)
+            if not okk:
+                counterexamples[0] += 1
+                chk.counterexample({'kind': 'undef-function', 'direction': 'fwd' if src == 't' else 'inv'},
+                                   {'input': {'expression': txt, 'from': src, 'to': dst}, 'lcapy': str(got), 'spec': 'expected %s' % want},
+                                   'transform of an undefined function is not the expected capitalised function')
+        except Exception as ex:   # noqa
+            chk.count('undefined-functions', 'error:' + type(ex).__name__)
+    for txt in ['x(t)*y(t)', 'x(2*t)', 'x(t)/t', 'Integral(x(t - tau), (tau, 0, oo))', 'Integral(x(tau)*y(t - tau), (tau, 0, t))', 'x(t)*t*y(t)',
+                '1/cosh(t)', '1/sinh(t)', 'tanh(t)', 't/(2*t - 3*j)', 't/(3*j - 2*t)', 'exp(j*t**2)', 'rampstep(t)', 't*DiracDelta(t, 1)',
+                'sin(f*t)', 'Piecewise((exp(-t), t >= 0))', '1/(t**2 + 1)', 't/(t**2 + 4)']:
+        try:
+            got = limited(lambda: mk(txt, 't')(LV['f'])).sympy
+            out = 'returned' + (':unevaluated' if (got.has(S.Integral) or got.has(S.FourierTransform)) else '')
+        except LcapyTimeout:
+            out = 'timeout'
+        except Exception as ex:   # noqa
+            out = 'error:' + type(ex).__name__
+        chk.count('outside-class-calls', out)
+    try:
+        r1 = _fou.FT(S.exp(-ts_) * S.Heaviside(ts_), ts_, fs_)
+        r2 = _ifou.IFT(1 / (1 + S.I * 2 * S.pi * fs_), fs_, ts_)
+        r3 = _fou.fourier_transform(S.exp(-ts_) * S.Heaviside(ts_), ts_, fs_, evaluate=False)
+        r4 = _ifou.inverse_fourier_transform(1 / (1 + S.I * 2 * S.pi * fs_), fs_, ts_, evaluate=False)
+        r5 = _fou.FT(S.Eq(xf(ts_), S.DiracDelta(ts_)), ts_, fs_)
+        # (`evaluate=False` is ignored by BilateralForwardTransformer.doit: `noevaluate` of both transformers is dead code)
+        chk.count('outside-class-calls', 'api:FT/IFT ' + ('ok' if (S.simplify(r1 - 1 / (1 + S.I * 2 * S.pi * fs_)) == 0 and S.simplify(r3 - r1) == 0
+                                                                  and S.simplify(r4 - r2) == 0 and r5.is_Equality and not r2.has(S.Integral)) else 'unexpected'))
+    except Exception as ex:   # noqa
+        chk.count('outside-class-calls', 'api-error:' + type(ex).__name__)
+    try:
+        limited(lambda: mk('exp(-t)*u(t)', 't')(LV['f'])(LV['f']))
+        limited(lambda: lcapy.fexpr('1/(1+f*t)'))
+    except Exception as ex:   # noqa
+        pass
+    tick('outside-class')
     bcov.stop()
     chk.coverage['branch_coverage'] = bcov.table()
     # ---- 4. classification
